@@ -5,12 +5,18 @@ import ast
 
 from framelint.core import rule, Ctx
 from framelint.srcmodel import walk_own, AnalysisError
+from framelint.canon import normalize
 from framelint.canon import (Canon, CanonOptions, Sigma, canon_function, show, S, to_poly, Poly, mk_lt, mk_not, k_num,
                              contains, atoms_of, skey)
 from .common import (GEOM, sigma_xy, sigma_dual, sigma_swap, check_closed, check_mirror, check_law, poly_equal,
                      call_name, is_eps_atom)
 
 R = "Rectangle."
+from framelint.canon import canon_function as _canon_function_expanded
+
+def canon_function(fi, model=None, opts=None):   # rules of this file match shapes: look through every local
+    return _canon_function_expanded(fi, model, opts, expand=True)
+
 
 
 @rule("C18", "R1.axis-symmetry", "CLOSED/MIRROR",
@@ -230,7 +236,8 @@ def _piece_geometry(ctx: Ctx, fi, opts_extra=None):
     names = sorted(set(names), key=names.index)
     opts = CanonOptions(keep_names=set(names), inline_properties={"Rectangle.bounding_box"})
     c = Canon(fi, ctx.model, opts)
-    block = c.function()
+    from framelint.canon import normalize
+    block = normalize(c.function(), keep_identity=False)
     geo: dict[str, dict[str, S]] = {n: {} for n in names}
 
     def rec(stmts):
@@ -395,7 +402,7 @@ def r6(ctx: Ctx) -> None:
 
     # area_overlap value == product of the overlap extents
     fa = ctx.func(GEOM, R + "area_overlap")
-    ca = Canon(fa, ctx.model, CanonOptions(inline_properties={"Rectangle.bounding_box"})).function()
+    ca = normalize(Canon(fa, ctx.model, CanonOptions(inline_properties={"Rectangle.bounding_box"})).function(), keep_identity=False)
     ret = None
     for st in ca:
         if st[0] == "ret":
